@@ -255,6 +255,18 @@ impl Shadow {
         self.objs[x].weak_owners as usize + self.weak_cells_containing(x).len()
     }
 
+    /// After collection rounds by `me`: was some object protected *only* by a peer's snapshot
+    /// (no definite strong owner left, not yet destructed) while those rounds ran?
+    pub fn note_protection(&mut self, me: usize) {
+        let hs: Vec<usize> = self.holds.iter().filter(|h| h.thread != me && !h.weak).map(|h| h.obj).collect();
+        for x in hs {
+            if !self.objs[x].popped && self.strong_owner_count(x) == 0 {
+                self.bump("rounds_while_object_protected_only_by_peer_snapshot");
+                return;
+            }
+        }
+    }
+
     fn sig_tail(&self) -> String {
         let sites = sched::stall_sites();
         let names: Vec<&str> = sites.iter().map(|s| sched::site_name(*s)).collect();
